@@ -186,7 +186,8 @@ def main(argv):
     t0 = time.time()
     mod = importlib.import_module(prop)
     configs = ['q'] if tier == 'quick' else list(getattr(mod, 'THOROUGH_CONFIGS', ['q', 'd', 'r']))
-    ev_path = os.path.join(VERIF, 'evidence', f'{prop}.json')
+    EVDIR = os.environ.get('VERIF_EVIDENCE_DIR') or os.path.join(VERIF, 'evidence')
+    ev_path = os.path.join(EVDIR, f'{prop}.json')
     os.makedirs(os.path.dirname(ev_path), exist_ok=True)
     all_obs = []
     notes = []
@@ -234,7 +235,7 @@ def main(argv):
         print(f"KNOWN-FINDING: property={prop} {known[(prop, o.key)]['what']} [{o.key}]")
     rc = 0
     if viol:
-        rdir = os.path.join(VERIF, 'evidence', 'replay')
+        rdir = os.path.join(EVDIR, 'replay')
         os.makedirs(rdir, exist_ok=True)
         rpath = os.path.join(rdir, f'{prop}.json')
         with open(rpath, 'w') as f:
